@@ -31,7 +31,7 @@ echo "SEED $ID: build=[$build] tests=[$tests] demo_with_change=$demo_with demo_w
 results=""
 mkdir -p /tmp/seedroot-$ID && cp /verif/known_findings.json /tmp/seedroot-$ID/
 for c in "$@"; do
-  out=$(VERIF_REPO=$W VERIF_ROOT=/tmp/seedroot-$ID /verif/run.sh $c quick 2>&1); rc=$?
+  out=$(VERIF_BUDGET_S=${SEED_BUDGET_S:-300} VERIF_REPO=$W VERIF_ROOT=/tmp/seedroot-$ID /verif/run.sh $c quick 2>&1); rc=$?
   nv=$(echo "$out" | grep -c '^VIOLATION')
   first=$(echo "$out" | grep -m1 'what:' | cut -c1-300)
   err=$(echo "$out" | grep -m1 '^ERROR' | cut -c1-200)
